@@ -51,8 +51,8 @@ type result struct {
 	Calls   int      `json:"calls"`
 }
 
-var gateKind = map[string]string{"getattr": "GetAttr", "read": "ReadAt", "write": "WriteAt", "walk": "Walk", "mkdir": "Mkdir", "renameat": "RenameAt", "setattr": "SetAttr", "clunk": "Close"}
-var replyType = map[string]string{"getattr": "Rgetattr", "read": "Rread", "write": "Rwrite", "walk": "Rwalk", "mkdir": "Rmkdir", "renameat": "Rrenameat", "setattr": "Rsetattr", "clunk": "Rclunk"}
+var gateKind = map[string]string{"getattr": "GetAttr", "read": "ReadAt", "write": "WriteAt", "walk": "Walk", "mkdir": "Mkdir", "renameat": "RenameAt", "setattr": "SetAttr", "clunk": "Close", "walkover": "Close"}
+var replyType = map[string]string{"getattr": "Rgetattr", "read": "Rread", "write": "Rwrite", "walk": "Rwalk", "mkdir": "Rmkdir", "renameat": "Rrenameat", "setattr": "Rsetattr", "clunk": "Rclunk", "walkover": "Rwalk"}
 
 type runner struct {
 	t     *wirecodec.Table
@@ -109,7 +109,7 @@ func (rn *runner) run(in *input, si int) (*result, error) {
 		fid := 100 + r.ID
 		var names []string
 		switch r.Op {
-		case "getattr", "walk", "setattr", "clunk":
+		case "getattr", "walk", "setattr", "clunk", "walkover":
 			names = []string{fmt.Sprintf("d%d", r.ID)}
 		case "read", "write":
 			names = []string{fmt.Sprintf("f%d", r.ID)}
@@ -146,7 +146,7 @@ func (rn *runner) run(in *input, si int) (*result, error) {
 	auto.SetGate(func(c *puppet.Call) bool {
 		for _, r := range in.Reqs {
 			if r.Kind == "op" && c.K == gateKind[r.Op] && c.F == fileOf[r.ID] {
-				if r.Op == "clunk" {
+				if gateKind[r.Op] == "Close" {
 					dmu.Lock()
 					d := delivered[r.ID]
 					dmu.Unlock()
@@ -279,6 +279,9 @@ func (rn *runner) run(in *input, si int) (*result, error) {
 					err = raw.Send("Tgetattr", uint16(tg), wirecodec.Values{"fid": fid, "request_mask": []string{"mode"}})
 				case "clunk":
 					err = raw.Send("Tclunk", uint16(tg), wirecodec.Values{"fid": fid})
+				case "walkover":
+					// a walk onto a fid number that is bound: the binding is replaced and the old File closed
+					err = raw.Send("Twalk", uint16(tg), wirecodec.Values{"fid": 1, "newfid": fid, "names": []string{"w"}})
 				case "setattr":
 					err = raw.Send("Tsetattr", uint16(tg), wirecodec.Values{"fid": fid, "valid": []string{"size"}})
 				case "read":
